@@ -68,6 +68,8 @@ class C18(Oracle):
         while True:
             big = rng.random() < 0.5
             m = 10**6 if big else 5
+            if rng.random() < 0.15:
+                m = 2**62  # the laws are laws over the integers: far beyond what a double holds exactly
             ri = lambda: rng.randint(-m, m)  # noqa: E731
             ys, xs = sorted((ri(), ri())), sorted((ri(), ri()))
             yield {
@@ -140,6 +142,15 @@ class C18(Oracle):
         y_ = Transform(p, a) * Transform(q, b)
         if (y_.position.yx, y_.orientation) != exp_ or y_ is x_:
             out.append(V('transform/composition-returns-a-pose-moved-by-an-earlier-caller', f'{t} * {u}: {y_} after an earlier result was moved in place'))
+        # an inverse is a value: the inverse of an inverse taken earlier is the pose as it was then, not the
+        # pose object as it has become since
+        pose_ = Transform(p, a)
+        inv_ = -pose_
+        pose_.position = q
+        pose_.orientation = b
+        back_ = -inv_
+        if back_ != Transform(p, a) or back_ is pose_ or inv_ * Transform(p, a) != ident:
+            out.append(V('transform/inverse-follows-a-pose-changed-later', f'-(-{Transform(p, a)}) = {back_} after the pose was moved to {pose_}'))
         # `pose *= motion` is `pose = pose * motion`: the object the name stood for (a shared identity, an
         # agent's pose under another name) is left as it was
         ident2 = Transform(Position(0, 0), F)
